@@ -302,6 +302,7 @@ def clear_registries() -> None:
 # ------------------------------------------------------------------ line-level yield points
 WATCH = ("django_components/util/cache.py", "django_components/cache.py", "django_components/template.py",
          "django_components/component_media.py")
+WATCH_EXTRA: List[str] = []        # further source files (suffixes) to pre-empt in, set by a check for one exploration
 _line_sched: Optional[Scheduler] = None
 WATCH_ON = [False]
 
@@ -317,7 +318,7 @@ def install_line_tracer(s: Scheduler) -> None:
 
     def tracer(frame, event, arg):
         fn = frame.f_code.co_filename
-        if fn.endswith(WATCH):
+        if fn.endswith(WATCH) or (WATCH_EXTRA and fn.endswith(tuple(WATCH_EXTRA))):
             return local
         return None
     sys.settrace(tracer)
